@@ -422,11 +422,17 @@ impl Runner {
         let receiver = if setup {
             None
         } else {
-            match self.rng.weighted(&[80, 12, 5, 3]) {
+            match self.rng.weighted(&[78, 12, 5, 3, 2]) {
                 0 => None,
                 1 => Some(AddrRef::Actor(self.random_actor())),
                 2 => Some(AddrRef::Actor(BYSTANDERS[self.rng.pick_idx(2)].to_string())),
-                _ => Some(AddrRef::Raw(self.fresh_addr())),
+                3 => Some(AddrRef::Raw(self.fresh_addr())),
+                _ => Some(match self.rng.pick_idx(4) {
+                    0 => AddrRef::Pair(pair),
+                    1 => AddrRef::Router,
+                    2 => AddrRef::Factory,
+                    _ => AddrRef::Lp(pair),
+                }),
             }
         };
         let exact = self.rng.chance(50, 100);
@@ -477,7 +483,55 @@ impl Runner {
         None
     }
 
+    /// an LP holder hands (part of) its LP tokens to another account, which may withdraw later
+    pub fn gen_lp_transfer(&mut self) -> Option<Proto> {
+        let np = self.sim.model.pairs.len();
+        if np == 0 {
+            return None;
+        }
+        for _ in 0..6 {
+            let i = self.rng.pick_idx(np);
+            let lpk = self.sim.model.pairs[i].lp_key();
+            let holder = self.random_actor();
+            let b = self.bal(&lpk, &holder);
+            if b == 0 {
+                continue;
+            }
+            let to = self.random_actor();
+            if to == holder {
+                continue;
+            }
+            let amount = self.amount_upto(b);
+            // one in five LP transfers parks the tokens on a contract of the system
+            let to_ref = if self.rng.chance(20, 100) {
+                match self.rng.pick_idx(3) {
+                    0 => AddrRef::Pair(i),
+                    1 => AddrRef::Router,
+                    _ => AddrRef::Lp(i),
+                }
+            } else {
+                AddrRef::Actor(to)
+            };
+            return Some(Proto {
+                sender: AddrRef::Actor(holder),
+                pre: vec![],
+                op: Op::Transfer {
+                    asset: AssetRef::Lp(i),
+                    to: to_ref,
+                    amount: u(amount),
+                },
+                note: "lp transfer".into(),
+            });
+        }
+        None
+    }
+
     pub fn gen_donation(&mut self) -> Option<Proto> {
+        if self.rng.chance(12, 100) {
+            if let Some(p) = self.gen_lp_transfer() {
+                return Some(p);
+            }
+        }
         let np = self.sim.model.pairs.len();
         let donor = self.rng.pick(&["donor", "whale", "donor", "trader"]).to_string();
         let (to, asset): (AddrRef, AssetRef) = if np > 0 && self.rng.chance(80, 100) {
